@@ -305,6 +305,32 @@ def c15_uncheckedConstructors : List (Nat × Nat) :=
   ((structs.filter fun s => collectionNames.contains s.name).flatMap fun s =>
     (s.derives.filter fun d => d == Sym.Default).map fun d => (s.name, d))
 
+/-- the collections that can be built over *borrowed* locks (their `try_new` tests for duplicates
+once, at construction) -/
+def checkedCollections : List Nat :=
+  [Sym.BoxedLockCollection, Sym.RefLockCollection, Sym.RetryingLockCollection]
+
+def mentionsOwned (ws : List (Ty × List Ty)) : Bool :=
+  ws.any fun (_, bs) => bs.any fun b => b.head == Sym.OwnedLockable
+
+/-- safe mutable access to the underlying container of a checked collection that is available
+for non-owning element types: `c.child_mut().push(&a)` adds a lock that is already inside after
+the duplicate test has run (then `lock()` waits for a lock the thread holds itself) -/
+def c15_mutableAccessToChecked : List (Nat × Nat) :=
+  (inherentImpls.flatMap fun i =>
+    if checkedCollections.contains i.selfTy.head && !i.selfTy.isRef then
+      (i.fns.filter fun f =>
+        f.vis == 2 && !f.isUnsafe && !f.testOnly && f.recv == .refMut &&
+        (f.name == Sym.iter_mut || (match f.ret with | .ref _ true _ => true | _ => false)) &&
+        !((typeParams i).any fun p => i.hasBound p Sym.OwnedLockable) && !mentionsOwned f.wheres &&
+        !(f.generics.any fun g => g.bounds.any fun b => b.head == Sym.OwnedLockable)).map fun f => (i.selfTy.head, f.name)
+    else []) ++
+  ((impls.filter fun i =>
+      checkedCollections.contains i.selfTy.head &&
+      ((!i.selfTy.isRef && [Sym.AsMut, Sym.DerefMut, Sym.BorrowMut].contains (traitName i)) ||
+       (traitName i == Sym.IntoIterator && (match i.selfTy with | .ref _ true _ => true | _ => false))) &&
+      !((typeParams i).any fun p => i.hasBound p Sym.OwnedLockable)).map fun i => (i.selfTy.head, traitName i))
+
 /-- safe ways to get shared access into an owned collection -/
 def c15_ownedSharedAccess : List (Nat × Nat) :=
   (impls.flatMap fun i =>
